@@ -598,6 +598,14 @@ func init() {
 		}
 		return args, B("PANIC: the process ended: " + msg)
 	})
+	// [input; limit]: the nesting guard against its index-level model
+	RegisterImpl("C18.nesting", func(args [][]byte) ([][]byte, []byte) {
+		limit, _ := strconv.Atoi(string(args[1]))
+		if gmsl.VerifC18JSONNestingExceeds(args[0], limit) {
+			return args, B("true")
+		}
+		return args, B("false")
+	})
 	// [public key bytes]: keys of any length against a WELL-FORMED (64-byte) signature: the paths
 	// that hand a remote-supplied key to ed25519.Verify (VerifyJSON directly, the verify_keys and
 	// old_verify_keys of a key response)
@@ -992,6 +1000,34 @@ func genC18(c *Ctx) {
 				"C18.nopanic", "", "a power-level event naming itself as auth event")
 			c.Count("cycle")
 		}
+	}
+	// the nesting guard: every string over the bytes that matter to it up to a length, and random longer ones
+	{
+		alpha := []byte("[]{}\"\\a")
+		var rec func(p []byte, n int)
+		rec = func(p []byte, n int) {
+			for _, lim := range []string{"0", "1", "2"} {
+				c.Run("C18.nesting", [][]byte{p, B(lim)}, "C18.nesting", "", "nesting guard exhaustive")
+			}
+			c.Count("nesting")
+			if n == 0 {
+				return
+			}
+			for _, b := range alpha {
+				rec(append(append([]byte{}, p...), b), n-1)
+			}
+		}
+		rec(nil, c.Scale(4, 5))
+		for i := 0; i < c.Scale(500, 10000); i++ {
+			p := make([]byte, 1+r.Intn(40))
+			for j := range p {
+				p[j] = alpha[r.Intn(len(alpha))]
+			}
+			c.Run("C18.nesting", [][]byte{p, B(strconv.Itoa(r.Intn(6)))}, "C18.nesting", "", "nesting guard random")
+			c.Count("nesting")
+		}
+		c.Run("C18.nesting", [][]byte{bytes.Repeat([]byte("["), 10001), B(strconv.Itoa(gmsl.VerifC18MaxJSONDepth()))}, "C18.nesting", "", "nesting guard at the limit")
+		c.Run("C18.nesting", [][]byte{bytes.Repeat([]byte("["), 10000), B(strconv.Itoa(gmsl.VerifC18MaxJSONDepth()))}, "C18.nesting", "", "nesting guard at the limit")
 	}
 	// documents nested just inside / outside the depth encoding/json accepts, and far outside
 	for _, shape := range []string{"arr", "obj", "mixed", "content", "unopened"} {
